@@ -813,6 +813,42 @@ pub fn run(ctx: &Ctx) -> Report {
             judge(b, &Meta { kind: "unknown-instr", layout: "directed-multi-line-asm-block", dec: "none", coords: json!({"fault_text": "xyz 1", "fault_line": b.fault.1}) }, l, false);
         }));
     }
+    // directed: a valid instruction whose operand calls a user function reading a label declared further ahead (so the
+    // call has no value in the first pass) stands before the fault: the first error still belongs to the faulty line
+    {
+        let mut directed: Vec<Built> = vec![];
+        for fault in ["ld undefined_sym", "ld 0x1ff", "jmp 0x1_0000", "#d8 0x1ff", "#d8 undefined_sym"] {
+            for ncalls in 1..=2usize {
+                for gap in 0..=1usize {
+                    for in_include in [false, true] {
+                        let mut lines: Vec<String> = vec!["#ruledef {".into(), "    nop => 0x00".into(), "    ld {x: u8} => 0x10 @ x".into(), "    jmp {a: u16} => 0x20 @ a".into(), "}".into(), "#fn ahead(x) => x + later".into()];
+                        for _ in 0..ncalls {
+                            lines.push("ld ahead(1)".into());
+                        }
+                        for _ in 0..gap {
+                            lines.push("nop".into());
+                        }
+                        lines.push(fault.into());
+                        let fault_line = lines.len();
+                        lines.push("nop".into());
+                        lines.push("later:".into());
+                        let text = lines.join("\n") + "\n";
+                        let (files, f) = if in_include {
+                            (vec![("main.asm".to_string(), "; \u{e9}\n#include \"code.asm\"\n".to_string()), ("code.asm".to_string(), text)], ("code.asm".to_string(), fault_line))
+                        } else {
+                            (vec![("main.asm".to_string(), text)], ("main.asm".to_string(), fault_line))
+                        };
+                        directed.push(Built { files, fault: f, also: vec![], judge_first: true });
+                    }
+                }
+            }
+        }
+        rep.absorb(par_cases(&directed, |b, l| {
+            l.nontrivial(&b.files);
+            l.class("fault:after-an-unresolved-function-call");
+            judge(b, &Meta { kind: "after-unresolved-call", layout: "directed-after-function-call", dec: "none", coords: json!({"fault_text": "see files", "fault_line": b.fault.1}) }, l, false);
+        }));
+    }
     rep.extra("bound", json!({"max_items": maxlen, "alphabet": ITEMS, "rules": RULES, "decorations": DECS, "fault_variants": ["xyz 1", "ld undefined_sym", "ld 0x1ff", "ld 256", "#d8 ,", "#res", "#bogus", "#d8 1 +", "#ruledef { => 0x55 }", "#d byte(300)", "kk = byte(300)", "repeat of each label redeclarable at that position"]}));
     rep.extra("first_error_rule", json!(FIRST_ERROR_RULE));
     rep.assumptions = vec![
